@@ -34,7 +34,7 @@ def spec_regions(cg: CG.ClassCalls):
 
 
 def check(ctx):
-    ctx.rule("R-C16.1", "no lexer regular expression (master alternation, #line / #pragma triggers, directive sub-patterns) has exponential degree of ambiguity")
+    ctx.rule("R-C16.1", "no lexer regular expression (master alternation, #line / #pragma triggers, directive sub-patterns) has exponential or polynomial (infinite) degree of ambiguity")
     ctx.rule("R-C16.2", "each token is lexed once: _TokenStream.reset only moves the index, _fill only appends, the lexer is re-initialised only by parse()")
     ctx.rule("R-C16.4", "per-token work is bounded by the token: the lexer never copies the rest (or the consumed part) of the whole input - no open-ended slice of the input text")
     ctx.rule("R-C16.5", "no loop re-processes what earlier iterations built: a loop-carried value is not re-copied (string / list concatenation, deepcopy) nor handed to a helper that walks its whole chain")
@@ -52,6 +52,14 @@ def check(ctx):
         owner = getattr(nfa, "owner", {}).get(w["state"], "?")
         ctx.violation("R-C16.1", f"eda:{owner}", f"rule {owner} of the master regex is exponentially ambiguous ({w['kind']} at NFA state {w['state']} on symbol {w['symbol']!r}"
                       f"{', diverging on ' + repr(w.get('diverge_symbol')) if w.get('diverge_symbol') else ''}): a failing match attempt backtracks through 2^k splits of k repetitions",
+                      file=lx.rel, function=f"_regex_rules[{owner}]")
+    wi = R.ida_witness(nfa, root)
+    ok = wi is None
+    ctx.oblige("R-C16.1", "master regex: polynomial ambiguity", ok, sample={"rule": "R-C16.1", "regex": "_regex_master", "verdict": "finite ambiguity (no two loops share a word)" if ok else f"POLYNOMIAL AMBIGUITY {wi}"})
+    if not ok:
+        owner = getattr(nfa, "owner", {}).get(wi["loop_state"], "?")
+        ctx.violation("R-C16.1", f"ida:{owner}", f"rule {owner} of the master regex has infinite (polynomial) ambiguity: {wi['kind']} - the word {wi['word']!r} can be repeated in a first loop (NFA state {wi['loop_state']}), "
+                      f"leads from it into a second loop (state {wi['second_loop_state']}) and can be repeated there: a match attempt that fails after k repetitions tries all k ways of splitting them, so a long token costs quadratic time",
                       file=lx.rel, function=f"_regex_rules[{owner}]")
     # each rule separately (a rule's own loop structure), plus the auxiliary patterns used by the directive scanners
     t = m.t
@@ -88,6 +96,11 @@ def check(ctx):
         ctx.oblige("R-C16.1", nm, ok, sample={"rule": "R-C16.1", "regex": nm, "verdict": "no EDA" if ok else f"EDA {w}"})
         if not ok:
             ctx.violation("R-C16.1", f"eda:{nm}", f"pattern {nm} is exponentially ambiguous: {w}", file=lx.rel, function=nm)
+        wi = R.ida_witness(n2, r2)
+        ok = wi is None
+        ctx.oblige("R-C16.1", nm + ": polynomial ambiguity", ok, sample={"rule": "R-C16.1", "regex": nm, "verdict": "no IDA" if ok else f"IDA {wi}"})
+        if not ok:
+            ctx.violation("R-C16.1", f"ida:{nm}", f"pattern {nm} has infinite (polynomial) ambiguity: the word {wi['word']!r} can be repeated in two successive loops, a failing match tries every split (quadratic time): {wi}", file=lx.rel, function=nm)
     ctx.require_instances("R-C16.1", 3)
 
     # the parser never catches its own error: ParseError ends the parse
@@ -193,6 +206,68 @@ def check(ctx):
                         seen5.add(key)
                         ctx.violation("R-C16.5", f"requadratic:{fn.name}:{Tk}", f"in {fn.name} the loop-carried `{T}` {kind} (`{S.unparse(a_)[:80]}`): the k-th iteration does work proportional to k, so k repetitions cost ~k^2/2",
                                       file=m_.rel, function=fn.name, line=a_.lineno, construct=S.unparse(a_)[:160])
+                # a container that GROWS in this loop (append / extend / += / rebuilt from itself) must not be traversed in the same loop: the k-th
+                # round then walks k elements.  Traversals: iteration (for / comprehension), membership test, whole-container builtins, copying slices.
+                grown = {}
+                for g_ in ast.walk(L):
+                    if isinstance(g_, ast.Call) and isinstance(g_.func, ast.Attribute) and g_.func.attr in ("append", "extend", "insert", "add", "update") and isinstance(g_.func.value, (ast.Name, ast.Attribute)):
+                        grown.setdefault(S.unparse(g_.func.value), g_)
+                    elif isinstance(g_, ast.AugAssign) and isinstance(g_.op, ast.Add) and isinstance(g_.target, (ast.Name, ast.Attribute)) and not (isinstance(g_.value, ast.Constant) and isinstance(g_.value.value, (int, float))):
+                        grown.setdefault(S.unparse(g_.target), g_)
+                for T, g_ in sorted(grown.items()):
+                    root = g_.func.value if isinstance(g_, ast.Call) else g_.target
+                    while isinstance(root, ast.Attribute):
+                        root = root.value
+                    if not isinstance(root, ast.Name):
+                        continue
+                    # a counter (`n += 1`-like numeric accumulation) is not a container: require a container operation or a list / str initial value
+                    if isinstance(g_, ast.AugAssign) and not any(isinstance(b, ast.Assign) and any(S.unparse(t) == T for t in b.targets) and isinstance(b.value, (ast.List, ast.JoinedStr, ast.Dict, ast.Set))
+                                                                    or (isinstance(b, ast.Assign) and any(S.unparse(t) == T for t in b.targets) and isinstance(b.value, ast.Constant) and isinstance(b.value.value, str)) for b in ast.walk(fn)):
+                        continue
+
+                    def exits_loop(node):
+                        """the statement containing `node` lies in a block that leaves the loop right after it (return / break / raise at the end of the block)"""
+                        cur = node
+                        while cur is not L and cur is not None:
+                            par = getattr(cur, "_parent", None)
+                            for fld in ("body", "orelse"):
+                                blk = getattr(par, fld, None)
+                                if isinstance(blk, list) and any(x is cur for x in blk):
+                                    if blk and isinstance(blk[-1], (ast.Return, ast.Break, ast.Raise)) and par is not L:
+                                        return True
+                            cur = par
+                        return False
+                    for x in ast.walk(L):
+                        trav = None
+                        if isinstance(x, ast.comprehension) and S.unparse(x.iter) == T:
+                            trav = "a comprehension iterates over it"
+                        elif isinstance(x, ast.For) and x is not L and S.unparse(x.iter) == T:
+                            trav = "an inner loop iterates over it"
+                        elif isinstance(x, ast.Compare) and any(isinstance(o, (ast.In, ast.NotIn)) for o in x.ops) and any(S.unparse(c) == T for c in x.comparators) and isinstance(g_, ast.Call) and g_.func.attr in ("append", "extend", "insert"):
+                            trav = "a membership test scans it"
+                        elif isinstance(x, ast.Call) and isinstance(x.func, ast.Name) and x.func.id in ("sum", "any", "all", "max", "min", "sorted", "list", "tuple", "set", "frozenset", "reversed", "filter", "map", "enumerate", "zip") \
+                                and any(S.unparse(a) == T for a in x.args) and x.func.id not in ("reversed", "enumerate", "zip", "filter", "map"):
+                            trav = f"{x.func.id}() walks it"
+                        elif isinstance(x, ast.Call) and isinstance(x.func, ast.Attribute) and x.func.attr in ("join", "index", "count", "copy") and (any(S.unparse(a) == T for a in x.args) or (x.func.attr != "join" and S.unparse(x.func.value) == T)):
+                            trav = f".{x.func.attr}() walks it"
+                        elif isinstance(x, ast.Subscript) and isinstance(x.slice, ast.Slice) and S.unparse(x.value) == T and isinstance(x.ctx, ast.Load) and (x.slice.upper is None or x.slice.lower is None):
+                            trav = "an open-ended slice copies it"
+                        elif isinstance(x, ast.Starred) and S.unparse(x.value) == T and isinstance(getattr(x, "_parent", None), (ast.List, ast.Tuple, ast.Set)):
+                            trav = "it is unpacked into a new display"
+                        if trav is None or exits_loop(x):
+                            continue
+                        n5 += 1
+                        from .c06 import canon_of
+                        Tk = T if root.id in params else (canon_of(fn).text(root).replace("_", "$", 1) + T[len(root.id):])
+                        key = ("grown", fn.name, Tk)
+                        ctx.oblige("R-C16.5", f"{fn.name}: container {T} grown in a loop is traversed in it (line {getattr(x, 'lineno', L.lineno)})", False)
+                        if key not in seen5:
+                            seen5.add(key)
+                            st_ = x
+                            while not isinstance(st_, ast.stmt) and getattr(st_, "_parent", None) is not None:
+                                st_ = st_._parent
+                            ctx.violation("R-C16.5", f"requadratic:{fn.name}:{Tk}:traversed", f"in {fn.name} the container `{T}` grows in the loop at line {L.lineno} (`{S.unparse(g_)[:50]}`) and {trav} inside the same loop "
+                                          f"(`{S.unparse(st_)[:80]}`): the k-th round walks k elements, so a construct with k items costs ~k^2/2", file=m_.rel, function=fn.name, line=getattr(x, "lineno", L.lineno), construct=S.unparse(st_)[:160])
                 # deep copies of anything inside a loop
                 for c_ in ast.walk(L):
                     if isinstance(c_, ast.Call) and S.unparse(c_.func) in ("copy.deepcopy", "deepcopy") and ("deepcopy", fn.name) not in seen5:
